@@ -436,12 +436,16 @@ pub fn run(o: &Opts) {
             st.sample(rep.clone(), 4);
         }
         let term = format!(
-            "{{| c_text := {}; c_kind := {}; c_first := {}; c_last := {}; c_index := {}%nat; c_fake := {}; c_cli := {} |}}",
+            "{{| c_text := {}; c_kind := {}; c_first := {}; c_last := {}; c_index := {}%nat; c_whole := {}; c_fake := {}; c_cli := {} |}}",
             parseobs::text(&c.files[c.bad_file].1),
             b.kind,
             c.first_line,
             c.last_line,
             c.entry_index,
+            coq::bool_(!matches!(
+                fake_json["inner"].as_str().unwrap_or(""),
+                "UndeduciblePostingAmount" | "BalanceAssertionFailure" | "ZeroAmountWithExchange" | "ZeroExchangeRate" | "ExchangeWithAmountCommodity"
+            )),
             fake_term,
             cli_term
         );
